@@ -82,6 +82,10 @@ EXPLANATION += (
     ' Round 8: query columns are selected by a name-derived fancy index (R-ROLE/columns-by-name, rule of C07).'
 )
 
+EXPLANATION += (
+    ' Round 9: aggregated vote totals kept in a chosen integer type are sized from a sum of the summands (R-CAP/sum-capacity).'
+)
+
 RULE_TEXT = (
     "one obligation per draw, per block, per indexed comprehension, per "
     "provenance relation, per kernel function x configuration (type and "
